@@ -303,7 +303,7 @@ def cmd_replay(path):
 
 # ------------------------------------------------------------------------------ evidence
 
-def write_evidence(pid, prop, tier, agg, wall, nviol, seed):
+def write_evidence(pid, prop, tier, agg, wall, nviol, seed, partial=False):
     level = prop["level"]
     cov = {
         "evaluations": int(agg["stats"].get("evaluations", 0)),
@@ -337,8 +337,11 @@ def write_evidence(pid, prop, tier, agg, wall, nviol, seed):
         "wall_s": round(wall, 2),
         "violations": nviol,
     }
-    os.makedirs(os.path.join(VERIF, "evidence"), exist_ok=True)
-    path = os.path.join(VERIF, "evidence", pid + ".json")
+    # a filtered run (--job-filter / --flavours / --only), a run against another tree (TETL_REPO) or with a private build
+    # directory is a developer's partial run: its record must never replace the evidence of the registered command
+    evdir = os.path.join(BUILD, "evidence_partial") if partial else os.path.join(VERIF, "evidence")
+    os.makedirs(evdir, exist_ok=True)
+    path = os.path.join(evdir, pid + ".json")
     with open(path, "w") as f:
         json.dump(ev, f, indent=1, sort_keys=False)
         f.write("\n")
@@ -510,7 +513,8 @@ def cmd_check(pid, tier, only, jobs, job_filter, flavour_filter=None):
         rc = max(rc, 1)
 
     wall = time.time() - t_start
-    path = write_evidence(pid, prop, tier, agg, wall, len(reported), seed)
+    partial = bool(job_filter or flavour_filter or only or os.environ.get("TETL_REPO") or os.environ.get("MC_BUILD_DIR"))
+    path = write_evidence(pid, prop, tier, agg, wall, len(reported), seed, partial)
     st = agg["stats"]
     print("%s %s: jobs=%d evaluations=%d states=%d transitions=%d distinct_nontrivial=%d outcomes=%d exhaustive=%s "
           "known=%d violations=%d build=%.1fs total=%.1fs" % (
